@@ -111,7 +111,36 @@ func (x *Exec) checkSinks(e *ast.CallExpr, st *State, calleeShort string, args [
 		if label == "" {
 			label = "s"
 		}
-		x.obligeClause(st, "sink", x.site("sink@"+pat, e)+"."+label, sk.C, g, e.Pos())
+		name := x.site("sink@"+pat, e) + "." + label
+		// known-finding carve-outs (as for postconditions): the canary is the
+		// obligation restricted to the finding's input class and must fail,
+		// the obligation outside the class must discharge
+		var classes []*Term
+		for _, kf := range x.c.KFs {
+			if kf.Label != label {
+				continue
+			}
+			x.curPos = e.Pos()
+			kc := x.cctx(st, kf.When)
+			kc.env = cx.env
+			w := x.cbool(kf.When.Expr, kc)
+			x.curPos = old
+			classes = append(classes, w)
+			sk2 := st.clone()
+			sk2.add(w)
+			o := x.oblige(sk2, "sink", name+".kf."+kf.ID, label, g, e.Pos())
+			o.MustFail = true
+			o.KF = kf.ID
+		}
+		if len(classes) > 0 {
+			sn := st.clone()
+			sn.add(Not(Or(classes...)))
+			x.obligeClause(sn, "sink", name, sk.C, g, e.Pos())
+			// later code may rely on the sink condition only outside the class
+			st.add(Or(append(classes, g)...))
+			continue
+		}
+		x.obligeClause(st, "sink", name, sk.C, g, e.Pos())
 		st.add(g)
 	}
 }
